@@ -82,6 +82,29 @@ func ruleTextEditChecked(p *Prog, r *Res, rule string) {
 				if u, ok := c.(*ast.UnaryExpr); ok && u.Op == token.NOT {
 					c, neg = ast.Unparen(u.X), true
 				}
+				if id, isId := c.(*ast.Ident); isId {
+					// a local boolean that holds the answer of the check: `plain := isPlain(def)`
+					if o := info.Uses[id]; o != nil {
+						var defs []ast.Expr
+						ast.Inspect(f.Body(), func(x ast.Node) bool {
+							if as2, ok := x.(*ast.AssignStmt); ok {
+								for i, l := range as2.Lhs {
+									if identObj(info, l) == o {
+										if len(as2.Lhs) == len(as2.Rhs) {
+											defs = append(defs, as2.Rhs[i])
+										} else {
+											defs = append(defs, nil)
+										}
+									}
+								}
+							}
+							return true
+						})
+						if len(defs) == 1 && defs[0] != nil {
+							c = ast.Unparen(defs[0])
+						}
+					}
+				}
 				call, ok := c.(*ast.CallExpr)
 				if !ok {
 					return false
